@@ -1132,7 +1132,163 @@ def covered_xinclude(a, msg):
     return "c09-lxml-xinclude-xml-base" if got == ref else None
 
 
+# ------------------------------------------------------------------ enumerations of names: prefixes rebound between siblings / documents
+# The binding-layer model has no enumerations; this is the property on the implementation alone.  A field typed with an Enum
+# is parsed through `EnumConverter`, which gets the element's prefix map (`ns_map`) for QName valued members: the member
+# found for a lexical value must depend on what the prefix is bound to *at that element*, not on what the same spelling
+# meant at a sibling, in an earlier document, or for another parser of the same process.
+_ENUM_NS = ["urn:a", "urn:b", "urn:c"]
+_ENUM_FORMS = ["element", "text", "attribute", "tokens_element", "tokens_attribute", "optional_element"]
+_ENUM_CLASSES: dict = {}
+
+
+def _enum_classes(members, form):
+    """(Root, Item, Kind) for an enumeration given as [[member name, kind, value]]"""
+    import enum as _enum
+    from dataclasses import dataclass, field
+    from typing import List, Optional
+    from xml.etree.ElementTree import QName
+
+    key = json.dumps([members, form])
+    if key in _ENUM_CLASSES:
+        return _ENUM_CLASSES[key]
+    Kind = _enum.Enum("Kind", {n: (QName(v) if k == "qname" else tuple(QName(x) for x in v) if k == "qname_list" else v)
+                               for n, k, v in members})
+    if form == "element":
+        fields = {"kind": (List[Kind], field(default_factory=list, metadata={"type": "Element"}))}
+    elif form == "optional_element":
+        fields = {"kind": (Optional[Kind], field(default=None, metadata={"type": "Element"}))}
+    elif form == "text":
+        fields = {"kind": (Optional[Kind], field(default=None))}
+    elif form == "attribute":
+        fields = {"kind": (Optional[Kind], field(default=None, metadata={"type": "Attribute"}))}
+    elif form == "tokens_element":
+        fields = {"kind": (List[Kind], field(default_factory=list, metadata={"type": "Element", "tokens": True}))}
+    else:
+        fields = {"kind": (List[Kind], field(default_factory=list, metadata={"type": "Attribute", "tokens": True}))}
+    ns = {"__annotations__": {k: t for k, (t, _) in fields.items()}}
+    ns.update({k: f for k, (_, f) in fields.items()})
+    Item = dataclass(type("Item", (), ns))
+    Root = dataclass(type("Root", (), {
+        "__annotations__": {"item": List[Item]},
+        "item": field(default_factory=list, metadata={"type": "Element"}),
+    }))
+    _ENUM_CLASSES[key] = (Root, Item, Kind)
+    return _ENUM_CLASSES[key]
+
+
+def gen_enum(rng, tier):
+    """enumerations whose members are names (the same local name in several namespaces, different local names, a name
+    in no namespace), strings that look like prefixed names, or integers; a field of every form (element list, optional
+    element, text, attribute, token lists); several documents per case in which the prefixes are declared once on the
+    root, rebound on every item, or rebound from one document to the next; one parser for all documents or one each"""
+    for _ in range(n_cases(tier, 150, 3000)):
+        flavour = rng.choice(["qname", "qname", "qname", "qname_list", "str", "int"])
+        members = []
+        if flavour == "qname":
+            locals_ = rng.sample(["item", "other", "x1"], rng.randint(1, 2))
+            for ns_i, ns in enumerate(rng.sample(_ENUM_NS, rng.randint(2, 3))):
+                for l in locals_:
+                    members.append(["M%d_%s" % (ns_i, l.upper()), "qname", "{%s}%s" % (ns, l)])
+            if rng.random() < 0.3:
+                members.append(["PLAIN", "qname", "plain"])
+        elif flavour == "qname_list":
+            # an enumeration of xs:list values: every member is a list of names
+            names_ = ["{%s}%s" % (ns, l) for ns in rng.sample(_ENUM_NS, 2) for l in ("item", "other")]
+            seen = []
+            for i in range(rng.randint(2, 4)):
+                v = rng.sample(names_, 2)
+                if v not in seen:
+                    seen.append(v)
+                    members.append(["L%d" % i, "qname_list", v])
+        elif flavour == "str":
+            members = [["S%d" % i, "str", v] for i, v in enumerate(rng.sample(["p:item", "q:item", "item", "a b", "x"], 3))]
+        else:
+            members = [["I%d" % i, "int", v] for i, v in enumerate(rng.sample([0, 1, 2, 10, -3], 3))]
+        form = rng.choice(_ENUM_FORMS if flavour != "qname_list" else ["element", "text", "attribute", "optional_element"])
+        docs, expected = [], []
+        for _d in range(rng.randint(1, 3)):
+            style = rng.choice(["root_decls", "rebind_per_item", "one_prefix_per_doc"])
+            n_items = rng.randint(1, 4)
+            items, exp = [], []
+            root_decls = {}
+            for _i in range(n_items):
+                n_vals = rng.randint(1, 3) if form.startswith("tokens") else 1
+                decls, lex, names = {}, [], []
+                for _v in range(n_vals):
+                    name, kind, value = rng.choice(members)
+                    names.append(name)
+                    if kind in ("qname", "qname_list") and (kind == "qname_list" or value.startswith("{")):
+                        pieces = []
+                        for comp in (value if kind == "qname_list" else [value]):
+                            uri, local = comp[1:].split("}")
+                            if style == "root_decls":
+                                p_ = "n" + str(_ENUM_NS.index(uri))
+                                root_decls[p_] = uri
+                            else:
+                                # the same prefix for whatever namespace comes first here: rebound at the next item / document
+                                free = [c for c in ("p", "q", "r") if decls.get(c, uri) == uri]
+                                p_ = free[0]
+                                decls[p_] = uri
+                            pieces.append(p_ + ":" + local)
+                        lex.append(" ".join(pieces))
+                    elif kind == "int":
+                        lex.append(rng.choice(["%d", " %d", "%d "]) % value)
+                    else:
+                        lex.append(value)
+                if kind == "str" and form.startswith("tokens") and any(" " in x for x in lex):
+                    lex = [x for x in lex if " " not in x] or ["x"]
+                    names = [next(n for n, _k, v in members if v == x) if any(v == x for _n, _k, v in members) else None for x in lex]
+                    if None in names:
+                        continue
+                d_attr = "".join(' xmlns:%s="%s"' % (k, v) for k, v in decls.items())
+                text = " ".join(lex).replace("&", "&amp;").replace("<", "&lt;")
+                if form in ("element", "optional_element", "tokens_element"):
+                    if form == "tokens_element" or form == "optional_element":
+                        items.append("<item><kind%s>%s</kind></item>" % (d_attr, text))
+                        exp.append(names if form == "tokens_element" else names[0])
+                    else:
+                        items.append("<item%s><kind>%s</kind></item>" % (d_attr, text))
+                        exp.append(names)
+                elif form == "text":
+                    items.append("<item%s>%s</item>" % (d_attr, text))
+                    exp.append(names[0])
+                else:
+                    items.append('<item%s kind="%s"/>' % (d_attr, text.replace('"', "&quot;")))
+                    exp.append(names if form == "tokens_attribute" else names[0])
+            r_attr = "".join(' xmlns:%s="%s"' % (k, v) for k, v in root_decls.items())
+            docs.append("<Root%s>%s</Root>" % (r_attr, "".join(items)))
+            expected.append(exp)
+        yield {"members": members, "form": form, "docs": docs, "expected": expected, "one_parser": rng.random() < 0.5}
+
+
+def oracle_enum(a):
+    from xsdata.formats.dataclass.context import XmlContext
+    from xsdata.formats.dataclass.parsers import XmlParser
+    from xsdata.formats.dataclass.parsers.handlers import LxmlEventHandler, XmlEventHandler
+
+    Root, _Item, _Kind = _enum_classes(a["members"], a["form"])
+    for hname, h in (("native", XmlEventHandler), ("lxml", LxmlEventHandler)):
+        shared = XmlParser(context=XmlContext(), handler=h)
+        for doc, exp in zip(a["docs"], a["expected"]):
+            p = shared if a["one_parser"] else XmlParser(context=XmlContext(), handler=h)
+            with warnings.catch_warnings():
+                warnings.simplefilter("ignore")
+                try:
+                    obj = p.from_string(doc, Root)
+                except Exception as e:  # noqa: BLE001
+                    return f"{hname}: {doc} raised {type(e).__name__}: {e}"
+            got = []
+            for it in obj.item:
+                v = it.kind
+                got.append([getattr(x, "name", repr(x)) for x in v] if isinstance(v, list) else getattr(v, "name", repr(v)))
+            if got != exp:
+                return f"{hname}: {doc} gives {got}, the document says {exp}"
+    return None
+
+
 ORACLES = [
+    Oracle("enum-members-by-namespace", gen_enum, oracle_enum),
     Oracle("xinclude-split-equals-merged", gen_xinclude, oracle_xinclude, covered=covered_xinclude, from_ops=("c09.xinclude",)),
     Oracle("respelling-invariance", gen_oracle, oracle_check, covered=oracle_covered, from_ops=("bind.parse",), adapt=adapt_corr_case),
     Oracle("chunking-invariance", gen_tails, oracle_chunking, from_ops=("c09.tails",)),
